@@ -1,11 +1,15 @@
 import Econf.Layered
 import Econf.Lemmas.LayeredLemmas
+import Econf.Lemmas.OwnLemmas
 
 /-!
   # C20 – out-pointer discipline of the read entry points (the part of C20 a model can carry)
 
   C20 has two halves.  *Release exactly once, nothing left, nothing read uninitialised* is a
-  statement about the C heap; the functional model has no heap, so no theorem here speaks about it –
+  statement about the C heap.  At the granularity of `econf_file` objects it is proved in the second part of
+  this file for the ownership model `Econf/Own.lean` (which object is created, handed on and released on which
+  path; tied to the library by the hook `econf_verif_object_hook` and the event-by-event comparison of the
+  correspondence run); below that granularity (the strings and arrays inside an object, uninitialised reads)
   it is decided by the correspondence harness (ASan/UBSan, live-byte accounting at MARK/LEAK, with a
   failure injected at every consulted file in turn), see DESIGN.md 10.4.  *Each out-pointer is
   afterwards NULL, left as the caller initialised it, or a valid object* is decision logic of the
@@ -93,5 +97,278 @@ theorem C20_merge_out (files : List KeyFile) (h : files ≠ []) : (mergeHistory 
   cases files with
   | nil => exact absurd rfl h
   | cons k ks => rfl
+
+
+/-! ## Object ledger of the read entry points
+
+`Takes L evs P` (Lemmas/OwnLemmas.lean): replaying the object events `evs` from the live objects `L` never
+creates an id twice, never releases an object that is not alive (released twice, or never created), and
+afterwards exactly the ids with `P` are alive.  `Bnd L n`: the ids in `L` are below the allocation counter.
+Each theorem holds for every file system, callback, restriction setting and argument (NULL included). -/
+
+/-- id of the object a pointer holds -/
+def ptrId (p : Option (Nat × KeyFile)) : Option Nat := p.map Prod.fst
+
+theorem C20_readConfig_ledger (ctx : RdCtx) (o : OSt) (slot : Option (Nat × KeyFile))
+    (project usr name suffix delim : Option Str) (comment : Str) (L : List Nat)
+    (hb : Bnd L o.next) (hs : ∀ s, slot = some s → s.1 ∈ L) :
+    ∃ evs, (ownReadConfig ctx o slot project usr name suffix delim comment).1.log = o.log ++ evs ∧
+      Takes L evs (fun i => (i ∈ L ∧ some i ≠ ptrId slot) ∨
+        some i = ptrId (ownReadConfig ctx o slot project usr name suffix delim comment).2.2) := by
+  unfold ownReadConfig
+  cases slot with
+  | none =>
+    simp only
+    obtain ⟨evs, h1, h2, h3⟩ := ownReadConfigCore_spec ctx o.alloc.1 o.alloc.2 (prepareConfig {} project usr name).1
+      (prepareConfig {} project usr name).2 suffix delim comment
+    have hn : o.next ∉ L := fun h => Nat.lt_irrefl _ (hb _ h)
+    generalize ownReadConfigCore ctx o.alloc.1 o.alloc.2 _ _ suffix delim comment = q at h1 h2 h3 ⊢
+    obtain ⟨o1, r⟩ := q
+    simp only [OSt.alloc] at h1 h2 h3 ⊢
+    cases r with
+    | ok m =>
+      refine ⟨[OEv.new o.next] ++ evs, by simp [h1], ?_⟩
+      refine Takes.append (Takes.new hn) (fun L' hL' => ?_)
+      have := h3 L' (fun i hi => by rcases (hL' i).1 hi with h | h; (have := hb i h; omega); omega) ((hL' _).2 (Or.inr rfl))
+      simp only [CorePost] at this
+      refine this.1.congr (fun i => ?_)
+      simp only [hL', ptrId, Option.map_none, Option.map_some, ne_eq, reduceCtorEq, not_false_eq_true, and_true, Option.some.injEq]
+      constructor
+      · rintro (⟨a | a, b⟩ | h)
+        · exact Or.inl a
+        · exact absurd a b
+        · exact Or.inr h
+      · rintro (a | h)
+        · exact Or.inl ⟨Or.inl a, fun h => by have := hb i a; omega⟩
+        · exact Or.inr h
+    | error e =>
+      simp only [↓reduceIte]
+      refine ⟨[OEv.new o.next] ++ evs ++ [OEv.free o.next], by simp [h1, OSt.release, OSt.emit], ?_⟩
+      refine Takes.append (P := fun i => i ∈ L ∨ i = o.next) (Takes.append (Takes.new hn) (fun L' hL' => ?_)) (fun L' hL' => ?_)
+      · have := h3 L' (fun i hi => by rcases (hL' i).1 hi with h | h; (have := hb i h; omega); omega) ((hL' _).2 (Or.inr rfl))
+        simp only [CorePost] at this
+        exact this.congr (fun i => by simp [hL'])
+      · refine (Takes.free ((hL' _).2 (Or.inr rfl))).congr (fun i => ?_)
+        simp only [hL', ptrId, Option.map_none, ne_eq, reduceCtorEq, not_false_eq_true, and_true, or_false]
+        constructor
+        · rintro ⟨a | a, b⟩
+          · exact a
+          · exact absurd a b
+        · intro a; exact ⟨Or.inl a, fun h => by have := hb i a; omega⟩
+  | some s =>
+    obtain ⟨id, kf⟩ := s
+    simp only
+    have hid : id ∈ L := hs (id, kf) rfl
+    obtain ⟨evs, h1, h2, h3⟩ := ownReadConfigCore_spec ctx o id (prepareConfig kf project usr name).1
+      (prepareConfig kf project usr name).2 suffix delim comment
+    have := h3 L hb hid
+    generalize ownReadConfigCore ctx o id _ _ suffix delim comment = q at h1 h2 this ⊢
+    obtain ⟨o1, r⟩ := q
+    cases r with
+    | ok m =>
+      simp only [CorePost] at this
+      exact ⟨evs, h1, this.1.congr (fun i => by simp [ptrId])⟩
+    | error e =>
+      simp only [CorePost] at this
+      simp only [Bool.false_eq_true, ↓reduceIte]
+      refine ⟨evs, h1, this.congr (fun i => ?_)⟩
+      simp only [ptrId, Option.map_some, ne_eq, Option.some.injEq]
+      constructor
+      · intro a
+        by_cases h : i = id
+        · exact Or.inr h
+        · exact Or.inl ⟨a, h⟩
+      · rintro (⟨a, _⟩ | h)
+        · exact a
+        · exact h ▸ hid
+
+theorem C20_readDirs_ledger (ctx : RdCtx) (o : OSt) (usr etc name suffix delim : Option Str) (comment : Str) (L : List Nat)
+    (hb : Bnd L o.next) :
+    ∃ evs, (ownReadDirs ctx o usr etc name suffix delim comment).1.log = o.log ++ evs ∧
+      Takes L evs (fun i => i ∈ L ∨ some i = ptrId (ownReadDirs ctx o usr etc name suffix delim comment).2.2) := by
+  unfold ownReadDirs
+  simp only
+  obtain ⟨evs, h1, h2, h3⟩ := ownReadConfigCore_spec ctx o.alloc.1 o.alloc.2 { parseDirs := [usr.getD [], etc.getD []] } name suffix delim comment
+  have hn : o.next ∉ L := fun h => Nat.lt_irrefl _ (hb _ h)
+  generalize ownReadConfigCore ctx o.alloc.1 o.alloc.2 _ name suffix delim comment = q at h1 h2 h3 ⊢
+  obtain ⟨o1, r⟩ := q
+  simp only [OSt.alloc] at h1 h2 h3 ⊢
+  refine ⟨[OEv.new o.next] ++ evs, by cases r <;> simp [h1], ?_⟩
+  refine Takes.append (Takes.new hn) (fun L' hL' => ?_)
+  have := h3 L' (fun i hi => by rcases (hL' i).1 hi with h | h; (have := hb i h; omega); omega) ((hL' _).2 (Or.inr rfl))
+  cases r with
+  | ok m =>
+    simp only [CorePost] at this
+    refine this.1.congr (fun i => ?_)
+    simp only [hL', ptrId, Option.map_some, Option.some.injEq]
+    constructor
+    · rintro (⟨a | a, b⟩ | h)
+      · exact Or.inl a
+      · exact absurd a b
+      · exact Or.inr h
+    · rintro (a | h)
+      · exact Or.inl ⟨Or.inl a, fun h => by have := hb i a; omega⟩
+      · exact Or.inr h
+  | error e =>
+    simp only [CorePost] at this
+    exact this.congr (fun i => by simp [hL', ptrId])
+
+theorem C20_readFile_ledger (ctx : RdCtx) (o : OSt) (path delim comment : Option Str) (L : List Nat) (hb : Bnd L o.next) :
+    ∃ evs, (ownReadFile ctx o path delim comment).1.log = o.log ++ evs ∧
+      Takes L evs (fun i => i ∈ L ∨ some i = ptrId (ownReadFile ctx o path delim comment).2.2) := by
+  have hn : o.next ∉ L := fun h => Nat.lt_irrefl _ (hb _ h)
+  have gone : Takes L ([OEv.new o.next] ++ [OEv.free o.next]) (· ∈ L) :=
+    Takes.append (Takes.new hn) (fun L' hL' => (Takes.free ((hL' _).2 (Or.inr rfl))).congr (fun i => by
+      simp only [hL']
+      constructor
+      · rintro ⟨a | a, b⟩
+        · exact a
+        · exact absurd a b
+      · intro a; exact ⟨Or.inl a, fun h => hn (h ▸ a)⟩))
+  unfold ownReadFile
+  have hnull : ∃ evs, ((o.alloc.1.release o.alloc.2, Err.error, (none : Option (Nat × KeyFile))) : OSt × Err × Option (Nat × KeyFile)).1.log = o.log ++ evs ∧
+      Takes L evs (fun i => i ∈ L ∨ some i = ptrId ((o.alloc.1.release o.alloc.2, Err.error, (none : Option (Nat × KeyFile))) : OSt × Err × Option (Nat × KeyFile)).2.2) :=
+    ⟨[OEv.new o.next] ++ [OEv.free o.next], by simp [OSt.alloc, OSt.release, OSt.emit], gone.congr (by simp [ptrId])⟩
+  cases path with
+  | none => exact hnull
+  | some p =>
+    cases delim with
+    | none => exact hnull
+    | some d =>
+      cases comment with
+      | none => exact hnull
+      | some c =>
+        simp only
+        obtain ⟨evs2, h2log, h2next, h2takes, h2ok⟩ := ownReadFileCB_spec ctx o.alloc.1 o.alloc.2 false false p d c
+        generalize ownReadFileCB ctx o.alloc.1 o.alloc.2 false false p d c = q at h2log h2next h2takes h2ok ⊢
+        obtain ⟨o2, r, freed⟩ := q
+        simp only [OSt.alloc] at h2log h2next h2takes h2ok ⊢
+        have mid : Takes L ([OEv.new o.next] ++ evs2) (fun i => (i ∈ L ∨ i = o.next) ∧ (freed = true → i ≠ o.next)) :=
+          Takes.append (Takes.new hn) (fun L' hL' => (h2takes L' ((hL' _).2 (Or.inr rfl))).congr (fun i => by simp [hL']))
+        cases r with
+        | ok kf =>
+          have := h2ok kf rfl
+          subst this
+          exact ⟨[OEv.new o.next] ++ evs2, by simp [h2log], mid.congr (fun i => by simp [ptrId, eq_comm])⟩
+        | error e =>
+          cases freed with
+          | true =>
+            refine ⟨[OEv.new o.next] ++ evs2, by simp [h2log], mid.congr (fun i => ?_)⟩
+            simp only [ptrId, Option.map_none, reduceCtorEq, or_false, forall_const]
+            constructor
+            · rintro ⟨a | a, b⟩
+              · exact a
+              · exact absurd a b
+            · intro a; exact ⟨Or.inl a, fun h => hn (h ▸ a)⟩
+          | false =>
+            refine ⟨[OEv.new o.next] ++ evs2 ++ [OEv.free o.next], by simp [h2log, OSt.release, OSt.emit], ?_⟩
+            refine Takes.append mid (fun L' hL' => (Takes.free ((hL' _).2 ⟨Or.inr rfl, by simp⟩)).congr (fun i => ?_))
+            simp only [hL', ptrId, Option.map_none, reduceCtorEq, or_false, Bool.false_eq_true, false_implies, and_true]
+            constructor
+            · rintro ⟨a | a, b⟩
+              · exact a
+              · exact absurd a b
+            · intro a; exact ⟨Or.inl a, fun h => hn (h ▸ a)⟩
+
+theorem C20_history_ledger (ctx : RdCtx) (o : OSt) (usr etc name suffix delim : Option Str) (comment : Str) (L : List Nat)
+    (hb : Bnd L o.next) :
+    ∃ evs, (ownReadDirsHistory ctx o usr etc name suffix delim comment).1.log = o.log ++ evs ∧
+      match (ownReadDirsHistory ctx o usr etc name suffix delim comment).2 with
+      | .ok files => Takes L evs (fun i => i ∈ L ∨ i ∈ idsOf files) ∧ (idsOf files).Nodup ∧ (∀ i ∈ idsOf files, i ∉ L) ∧
+          -- and when the caller has released every member, what was alive before is alive, nothing else
+          Takes L (evs ++ (idsOf files).map OEv.free) (· ∈ L)
+      | .error _ => Takes L evs (· ∈ L) := by
+  unfold ownReadDirsHistory
+  obtain ⟨evs, h1, h2, h3⟩ := ownHistory_spec ctx o [usr.getD [], etc.getD []] name suffix delim comment false false o.rs.g.confDirs
+  have := h3 L hb
+  generalize ownHistory ctx o [usr.getD [], etc.getD []] name suffix delim comment false false o.rs.g.confDirs = q at h1 h2 this ⊢
+  obtain ⟨o1, r⟩ := q
+  refine ⟨evs, h1, ?_⟩
+  cases r with
+  | error e => simpa [HistPost] using this
+  | ok files =>
+    simp only [HistPost] at this ⊢
+    have hnd : (idsOf files).Nodup := this.2.1.imp (fun h => Nat.ne_of_lt h)
+    have hrng := this.2.2
+    have hdis : ∀ i ∈ idsOf files, i ∉ L := fun i hi h => by have h1 := hb i h; have h2 := (hrng i hi).1; omega
+    refine ⟨this.1, hnd, hdis, Takes.append this.1 (fun L' hL' => ?_)⟩
+    refine (Takes.freeAll _ L' hnd (fun i hi => (hL' i).2 (Or.inr hi))).congr (fun i => ?_)
+    simp only [hL']
+    constructor
+    · rintro ⟨a | a, b⟩
+      · exact a
+      · exact absurd a b
+    · intro a; exact ⟨Or.inl a, fun h => hdis i h a⟩
+
+/-- an object handed out for a NULL pointer is a new one -/
+theorem C20_readConfig_fresh (ctx : RdCtx) (o : OSt) (project usr name suffix delim : Option Str) (comment : Str) (id : Nat)
+    (h : ptrId (ownReadConfig ctx o none project usr name suffix delim comment).2.2 = some id) : o.next ≤ id := by
+  unfold ownReadConfig at h
+  simp only at h
+  obtain ⟨evs, h1, h2, h3⟩ := ownReadConfigCore_spec ctx o.alloc.1 o.alloc.2 (prepareConfig {} project usr name).1
+    (prepareConfig {} project usr name).2 suffix delim comment
+  have := h3 [o.next] (by intro i hi; simp at hi; subst hi; simp [OSt.alloc]) (by simp [OSt.alloc])
+  generalize ownReadConfigCore ctx o.alloc.1 o.alloc.2 _ _ suffix delim comment = q at h this
+  obtain ⟨o1, r⟩ := q
+  cases r with
+  | ok m =>
+    simp only [CorePost, OSt.alloc] at this
+    simp only [ptrId, Option.map_some, Option.some.injEq] at h
+    omega
+  | error e => simp [ptrId] at h
+
+/-- the caller passed NULL, got an object and released it: what was alive before is alive, nothing else -/
+theorem C20_readConfig_no_leak (ctx : RdCtx) (o : OSt) (project usr name suffix delim : Option Str) (comment : Str)
+    (L : List Nat) (hb : Bnd L o.next) :
+    ∃ evs, (ownReadConfig ctx o none project usr name suffix delim comment).1.log = o.log ++ evs ∧
+      Takes L (evs ++ ((ptrId (ownReadConfig ctx o none project usr name suffix delim comment).2.2).toList.map OEv.free)) (· ∈ L) := by
+  obtain ⟨evs, h1, h2⟩ := C20_readConfig_ledger ctx o none project usr name suffix delim comment L hb (by simp)
+  refine ⟨evs, h1, Takes.append h2 (fun L' hL' => ?_)⟩
+  have hf := C20_readConfig_fresh ctx o project usr name suffix delim comment
+  generalize ptrId (ownReadConfig ctx o none project usr name suffix delim comment).2.2 = res at hL' hf ⊢
+  cases res with
+  | none => exact (Takes.nil L').congr (fun i => by simp [hL', ptrId])
+  | some id =>
+    have hid := hf id rfl
+    refine (Takes.free ((hL' id).2 (Or.inr rfl))).congr (fun i => ?_)
+    simp only [hL', ptrId, Option.map_none, ne_eq, reduceCtorEq, not_false_eq_true, and_true, Option.some.injEq]
+    constructor
+    · rintro ⟨a | a, b⟩
+      · exact a
+      · exact absurd a b
+    · intro a; exact ⟨Or.inl a, fun h => by have := hb i a; omega⟩
+
+/-- the results (state, return code, object or file list) are those of the functional model, so every theorem
+    of C01/C06/C12/C13/C16 about `readConfig`, `readDirs`, `readDirsHistory`, `readFile` speaks about the very
+    calls whose object events are counted here -/
+theorem C20_own_refines (ctx : RdCtx) (o : OSt) :
+    (∀ slot project usr name suffix delim comment,
+      ((ownReadConfig ctx o slot project usr name suffix delim comment).1.rs,
+       (ownReadConfig ctx o slot project usr name suffix delim comment).2.1,
+       (ownReadConfig ctx o slot project usr name suffix delim comment).2.2.map Prod.snd) =
+      readConfig ctx o.rs (slot.map Prod.snd) project usr name suffix delim comment) ∧
+    (∀ usr etc name suffix delim comment,
+      ((ownReadDirs ctx o usr etc name suffix delim comment).1.rs,
+       (ownReadDirs ctx o usr etc name suffix delim comment).2.1,
+       (ownReadDirs ctx o usr etc name suffix delim comment).2.2.map Prod.snd) =
+      readDirs ctx o.rs usr etc name suffix delim comment) ∧
+    (∀ usr etc name suffix delim comment,
+      ((ownReadDirsHistory ctx o usr etc name suffix delim comment).1.rs,
+       (ownReadDirsHistory ctx o usr etc name suffix delim comment).2.map (List.map Prod.snd)) =
+      readDirsHistory ctx o.rs usr etc name suffix delim comment) ∧
+    (∀ path delim comment,
+      ((ownReadFile ctx o path delim comment).1.rs, (ownReadFile ctx o path delim comment).2.1,
+       (ownReadFile ctx o path delim comment).2.2.map Prod.snd) = readFile ctx o.rs path delim comment) :=
+  ⟨fun _ _ _ _ _ _ _ => ownReadConfig_result .., fun _ _ _ _ _ _ => ownReadDirs_result ..,
+   fun _ _ _ _ _ _ => by unfold ownReadDirsHistory readDirsHistory; exact ownHistory_result ..,
+   fun _ _ _ => ownReadFile_result ..⟩
+
+/-! non-vacuity: the premises of the ledger theorems hold at the start of every scenario (nothing alive, counter 0),
+    and the ledger refuses the sequences C20 forbids -/
+example : Bnd [] 0 := by intro i hi; cases hi
+example : ledger [] [.new 0, .new 1, .cb [], .openFile [], .free 1, .merged 2, .free 0] = some [2] := by decide
+example : ledger [] [.new 0, .free 0, .free 0] = none := by decide          -- released twice
+example : ledger [] [.new 0, .free 1] = none := by decide                   -- released, never created
+example : ledger [0] [.new 0] = none := by decide                           -- id handed out twice
 
 end Econf
